@@ -77,7 +77,9 @@ def check_abort(case, agg):
     fm["comps"] = comps
     progs[i] = fm
     cps.reset_sandbox()
-    env.write_config(".", csvpath_policy=["raise", "collect", "print"])
+    # the CsvPaths-level policy must not decide whether a member's 'raise' reaches the caller
+    cps_policy = ["raise", "collect"] if case.get("follow", 0) % 3 else ["collect", "print"]
+    env.write_config(".", csvpath_policy=["raise", "collect", "print"], csvpaths_policy=cps_policy)
     cs = env.new_csvpaths()
     cps.add_file(cs, "data", rows)
     cps.add_file(cs, "clean", rows_clean, srcname="clean.csv")
@@ -86,7 +88,7 @@ def check_abort(case, agg):
     follow_group = "grp" if case.get("follow", 0) % 2 == 0 else "other"
     cs.paths_manager.add_named_paths(name="other", paths=[cps.member_text(p, ident=f"m{j}") for j, p in enumerate(members)])
     inputs_before = cps.tree("inputs")
-    w = {"members": texts, "rows": rows, "method": method, "abort_member": i, "abort_line": line, "kind": kind}
+    w = {"members": texts, "rows": rows, "method": method, "abort_member": i, "abort_line": line, "kind": kind, "csvpaths_policy": cps_policy}
     with hooks.recording(agg) as rec:
         lines, exc = cps.run_method(cs, method, "grp", "data")
     agg.count("abort_points")
